@@ -242,6 +242,14 @@ Theorem c09_count_after_dial_refuted : ~ admit_statement (conn_cfg false).
 Proof. exact conn_count_after_dial_refuted. Qed.
 Print Assumptions c09_count_after_dial_refuted.
 
+(* Binding pool (one upstream connection bound to each downstream connection): GetActiveClient looks the bound client up,
+   dials and binds inside ONE critical section (read from the source), so two first streams of one downstream connection
+   cannot both dial - the interleaving argument is the one of the HTTP/2 pool's shared client (Props/C10_pool.v
+   c10_pool_h2_concurrent_pair / c10_pool_h2_unlocked_dial_refuted: check under the lock, dial unlocked, publish under the lock
+   is refuted); the harness drives 2-4 concurrent first streams on the real binding pool (family binding-concurrent-first-streams). *)
+Theorem c09_binding_dial_locked : poolbind_src_dial_locked = true.
+Proof. exact (eq_refl true). Qed.
+
 Example c09_init_example :
   irun [0;0;1;0;1;0;1;1;1]%nat (mx_init_cfg poolinit_src_mx_dial_locked) =
     ([[]; []], mkISh false true true 0%nat 0 false).
